@@ -33,7 +33,9 @@ def scratch_root():
 
 
 def scratch_for(pid):
-    return os.path.join(scratch_root(), str(pid))
+    # fixed width: path LENGTHS leak into what the code under test writes (marshalled co_filename, JSON sizes),
+    # and a 4-digit vs a 5-digit pid must not make two runs of one seed differ
+    return os.path.join(scratch_root(), f"{int(pid):07d}")
 
 
 def clean_os_environ():
